@@ -18,7 +18,7 @@ def guarded_operand_units(rng, n, ws):
     """every guarded operation (string / array index, division, modulo, nested index, call on an element) as the left and right operand of
     every kind of binary operator, as a call argument next to another one, and as an index: without the guard the operation still needs
     its registers, so a neighbouring operand must still be saved"""
-    atoms = ['s[i]', 't[j]', 's[j]', 'ia[i]', 'ia[j]', 'ba[i]', 'ba[j]', 'ga[i]', '(x / y)', '(x % y)', '(ia[j] / y)', 'strs[k][i]', 'strs[1][j]', 'ia[ia[k]]', 's[ia[k]]',
+    atoms = ['"abcd"[i]', 'cs[j]', 'gcs[i]', '"wxyz"[2]', 'cs[1]', '([7, 8, 9, 10])[j]', 'cia[i]', 's[i]', 't[j]', 's[j]', 'ia[i]', 'ia[j]', 'ba[i]', 'ba[j]', 'ga[i]', '(x / y)', '(x % y)', '(ia[j] / y)', 'strs[k][i]', 'strs[1][j]', 'ia[ia[k]]', 's[ia[k]]',
              'idf(s[i])', 'idf(ia[j])', 'sl(t)', 's.length', 'x', '7', '(s[i] is int)', '(-ia[i])']
     batoms = ['bb[i]', 'bb[j]', '(s[i] == t[i])', '(ia[i] < s[j])', '(x / y > 1)', 'bb[ia[k]]']
     units = []
@@ -37,8 +37,8 @@ def guarded_operand_units(rng, n, ws):
                 lines.append('write(two(%s, %s)); write(\' \');' % (a, b))
             else:
                 lines.append('if (%s %s %s * %s) { write("y"); } else { write("n"); }' % (a, rng.choice(['<', '==', '>=']), b, c3))
-        src = ('int[] ga = [3, 1, 2, 0];\nint idf(int v) { return v + 1; }\nint sl(string q) { return q.length; }\nint two(int p, int q) { return p * 10 + q; }\n'
-               'empty @is_you(int i, int j, int k) {\n  string s = "abcd"; string t = "abxd"; string[] strs = ["wxyz", "hijk", "lmno"]; int[] ia = [2, 0, 3, 1]; byte[] ba = [\'p\', \'q\', \'r\', \'s\'];\n'
+        src = ('int[] ga = [3, 1, 2, 0];\nconst string gcs = "qrst";\nconst int[] cia = [5, 6, 7, 8];\nint idf(int v) { return v + 1; }\nint sl(string q) { return q.length; }\nint two(int p, int q) { return p * 10 + q; }\n'
+               'empty @is_you(int i, int j, int k) {\n  string s = "abcd"; string t = "abxd"; const string cs = "mnop"; string[] strs = ["wxyz", "hijk", "lmno"]; int[] ia = [2, 0, 3, 1]; byte[] ba = [\'p\', \'q\', \'r\', \'s\'];\n'
                '  bool[] bb = [true, false, true, false]; int x = 17 + i; int y = 3 + j;\n  ' + '\n  '.join(lines) + '\n}\n')
         units.append((src, [Cfg((str(i), str(j), str(k)), w, 300, False) for (i, j, k) in ((0, 1, 2), (3, 2, 0), (1, 3, 1)) for w in ws[:2]]))
     return units
